@@ -878,3 +878,156 @@ def chk_iter_step(ctx, m, cfg):
 
 INDEXOPS["iter-init"] = (chk_iter_init, ["C04", "C06"])
 INDEXOPS["iter-step"] = (chk_iter_step, ["C04", "C06"])
+
+
+# ====================================================================== getters and isValidDirectedEdge
+def chk_getters(ctx, m, cfg):
+    """exported field getters return exactly the documented field of ANY 64-bit value"""
+    for fname, off, width, post, what in (("getResolution", RES_OFF, RES_W, None, "bits 52..55"),
+                                          ("getBaseCellNumber", BC_OFF, BC_W, None, "bits 45..51"),
+                                          ("isResClassIII", RES_OFF, 1, None, "the lowest resolution bit (odd resolutions are Class III)")):
+        f = m.fn(fname)
+        ev = lanes.Evaluator(m)
+        paths = ev.run(fname, [LV.input()])
+        bad = None
+        for p in paths:
+            r = p.ret
+            if isinstance(r, int):
+                r = lanes.const_lv(r, 32)
+                r = LV(32, off, [tuple(0 for _ in range(16))] * NL) if r.concrete(ev.allowed) == 0 else None
+            if not isinstance(r, LV) or r.chain is not None:
+                raise Shape("%s does not return a plain field of the index" % fname)
+            # the returned integer, re-addressed to h coordinates, must be exactly the field
+            if r.off != off:
+                raise Shape("%s returns a value shifted by %d, expected %d" % (fname, r.off, off))
+
+            def lane(j, x):
+                mk, _vl = _field_lane(off, width, 0, j)
+                return x & mk
+            d = LV(64, 0, [tuple(r.tab[j][x * 2] ^ lane(j, x) for x in range(8) for _c in (0, 1)) for j in range(NL)])
+            st, bad = lanes.decide(p.allowed, {"returned value differs from the field": F_and(p.cond, lanes.F_atom(lanes.Atom("nz", d)))}, SpecNone(["returned value differs from the field"]))
+            if bad:
+                break
+        _report(ctx, cfg, fname, "getter", f, 1, 0, bad, "returns %s of the index, for every 64-bit value" % what)
+
+
+class SpecValidEdge:
+    """documented isValidDirectedEdge for a fixed (res, base cell) case: mode 2, direction (reserved bits) 1..6, not 1 on a pentagon cell,
+    and the origin (same bits with mode 1, reserved 0) a valid cell"""
+    text = ("non-zero exactly when the high bit is 0, the mode is 2, the direction field is 1..6 (not 1 when the origin is a pentagon: pentagon base cell "
+            "and all digits 0) and the origin cell (mode 1, reserved 0, other bits unchanged) satisfies the documented cell validity")
+
+    def __init__(self, res, bc, pent, nbc):
+        self.res, self.bc, self.pent, self.nbc = res, bc, pent, nbc
+    def init(self): return (True, 0, 0)      # everything so far ok, first non-zero digit, direction (class after lane 19: 0 invalid, 1 K, 2 other)
+    def step(self, j, x, s):
+        ok, first, d = s
+        if not ok:
+            return (False, 0, 0)
+        if j <= 14:
+            dg = 15 - j
+            if dg <= self.res:
+                ok = x != 7
+                if x != 0:
+                    first = x
+            else:
+                ok = x == 7
+        elif j == 18:
+            d = (x >> 2) & 1                       # bit 56: direction bit 0
+        elif j == 19:
+            d |= (x & 3) << 1                      # bits 57,58: direction bits 1,2
+            ok = (x & 4) == 0 and 1 <= d <= 6      # bit 59: mode bit 0 must be 0
+            d = 1 if d == 1 else 2
+        elif j == 20:
+            ok = x == 1                            # bits 60..62: mode bits 1..3 = 1,0,0  (mode 2)
+        elif j == 21:
+            ok = x == 0
+        return (ok, first, d) if ok else (False, 0, 0)
+    def final(self, s):
+        ok, first, d = s
+        good = ok and self.bc < self.nbc
+        good = good and not (self.pent and first == 1)               # origin's deleted sub-sequence
+        good = good and not (self.pent and first == 0 and d == 1)    # K direction from a pentagon
+        return {"ret": good}
+
+
+def _same_field_as_input(x, off, width):
+    """the value carries the input's own bits in the field (so a per-case flag about the input's field applies to it)"""
+    for j in range(NL):
+        mk, _ = _field_lane(off, width, 0, j)
+        if mk and any((x.tab[j][v * 2] & mk) != (v & mk) or (x.tab[j][v * 2 + 1] & mk) != (v & mk) for v in range(8)):
+            return False
+    return True
+
+
+def _isvalidcell_model(bcvalid, pent):
+    """documented meaning of isValidCell (decided for the real code by check_validity, for all 2^64 values) for an argument that has the input's
+    own base-cell field, under the case flags 'base cell < 122' and 'base cell is a pentagon'"""
+    def model(ev, cargs, al, inst):
+        x = cargs[0]
+        if isinstance(x, int):
+            x = lanes.const_lv(x)
+        if not isinstance(x, LV) or x.off != 0 or not _same_field_as_input(x, BC_OFF, BC_W):
+            raise Shape("isValidCell applied to a value whose base-cell field is not the input's")
+        resf = x.masked(0xF << RES_OFF).concrete(al)
+        if resf is None:
+            raise Shape("isValidCell applied to an index whose resolution is not fixed by the case split")
+        res = resf >> RES_OFF
+        if not bcvalid:
+            return 0
+        A = lambda lv: lanes.F_atom(lanes.Atom("nz", lv))
+        top = x.masked(0xFF << 56)
+        top = LV(64, 0, [tuple(v ^ k for v in top.tab[j]) for j, k in enumerate(lanes.lanes_of(0x08 << 56))]).masked(0xFF << 56)
+        f_ = F_not(A(top))
+        m7 = 0
+        for d in range(1, res + 1):
+            m7 |= 7 << (3 * (15 - d))
+        # a digit 1..res equal to 7  <=>  (digit ^ 7) == 0 for some digit: per-lane test via a table that is non-zero exactly on 7
+        has7 = LV(64, 0, [tuple((1 if (15 - res <= j <= 14 and v == 7) else 0) for v in x.tab[j]) for j in range(NL)], x.chain)
+        f_ = F_and(f_, F_not(A(has7)))
+        not7 = LV(64, 0, [tuple((1 if (j <= 14 - res and v != 7) else 0) for v in x.tab[j]) for j in range(NL)], x.chain)
+        f_ = F_and(f_, F_not(A(not7)))
+        if pent:
+            dig = x.masked((1 << 45) - 1)
+            f_ = F_and(f_, F_not(lanes.F_atom(lanes.Atom("top", dig, (lambda p: p is not None and p % 3 == 0)))))
+        return BI(f_, 32)
+    return model
+
+
+def _ispent_model_checked(pent):
+    inner = _ispent_model(pent)
+
+    def model(ev, cargs, al, inst):
+        x = cargs[0]
+        if isinstance(x, LV) and not _same_field_as_input(x, BC_OFF, BC_W):
+            raise Shape("isPentagon applied to a value whose base-cell field is not the input's")
+        return inner(ev, cargs, al, inst)
+    return model
+
+
+def chk_valid_edge(ctx, m, cfg):
+    fname = "isValidDirectedEdge"
+    f = m.fn(fname)
+    n = states = 0
+    bad = None
+    casetxt = ""
+    for res, allowed in _res_cases():
+        for bcvalid, pent in ((False, False), (True, False), (True, True)):
+            ev = lanes.Evaluator(m, allowed)
+            ev.models["isPentagon"] = _ispent_model_checked(pent)
+            ev.models["isValidCell"] = _isvalidcell_model(bcvalid, pent)
+            fm = ret_formula(ev.run(fname, [LV.input()]))
+            st, bad = lanes.decide(allowed, {"ret": fm}, SpecValidEdge(res, 0 if bcvalid else 127, pent, 122))
+            states += st; n += 1
+            if bad:
+                casetxt = " [base cell field %s]" % ("of a pentagon" if pent else ("of a hexagon" if bcvalid else ">= 122"))
+                bad = ("returns %d" % int(bad[1]), bad[1], bad[2], bad[3])
+                break
+        if bad:
+            break
+    _report(ctx, cfg, fname, "valid-edge", f, n, states, bad, SpecValidEdge.text + " - for all 2^64 values (isPentagon / isValidCell taken with their documented meaning, "
+            "which check_validity and chk_ispentagon decide for the code itself)", casetxt)
+
+
+INDEXOPS["getters"] = (chk_getters, ["C01"])
+INDEXOPS["valid-edge"] = (chk_valid_edge, ["C10"])
